@@ -183,6 +183,21 @@ def install():
         for name, kind in table.items():
             if name in cls.__dict__:
                 _wrap(cls, name, kind)
+    from factorysimpy.nodes.node import Node
+    orig_get_delay = Node.get_delay
+
+    @functools.wraps(orig_get_delay)
+    def get_delay(self, delay):
+        val = orig_get_delay(self, delay)
+        run = _RUN
+        if run is not None:
+            n = run.node_idx.get(id(self))
+            if n is not None:
+                what = "pd" if delay is getattr(self, "processing_delay", object()) else "iat"
+                x = val * run.Q
+                run.log(k="draw", n=n, what=what, val=int(round(x)) if abs(x - round(x)) < 1e-9 else x)
+        return val
+    Node.get_delay = get_delay
     _installed = True
     return True
 
@@ -220,7 +235,6 @@ def _script(values, after, run, node, what, Q):
             v = next(it)
         except StopIteration:
             v = after
-        run.log(k="draw", n=node, what=what, val=v)
         return v / float(Q)
     return draw
 
